@@ -214,8 +214,25 @@ fn judge_rejected(o: &Out) -> Result<(), String> {
     Ok(())
 }
 
+/// The consumers of the npy part: the three of `CONSUMERS` reading stdin, and three that are given
+/// the file by path (`{PATH}`), among them the conversion that could copy its input through unread.
+const ALL_CONSUMERS: [&[&str]; 6] = [&["view"], &["fold"], &["stat", "-s", "sum"], &["view", "-O", "npy", "{PATH}"], &["view", "{PATH}"], &["fold", "{PATH}"]];
+
+/// Runs a consumer on `input`: on stdin, or - where the command line holds `{PATH}` - from a file.
+fn run_consumer(consumer: &[&str], input: &[u8], scratch: &Scratch) -> Out {
+    if consumer.contains(&"{PATH}") {
+        let path = scratch.file(".input", input);
+        let a: Vec<&str> = consumer.iter().map(|x| if *x == "{PATH}" { path.to_str().unwrap() } else { *x }).collect();
+        let o = run_sfs(&a, Stdin::Null, scratch);
+        let _ = std::fs::remove_file(&path);
+        o
+    } else {
+        run_sfs(consumer, Stdin::Bytes(input), scratch)
+    }
+}
+
 fn eval_cli(input: &[u8], consumer: &[&str], what: &str, class: &str, scratch: &Scratch) -> Option<Viol> {
-    let o = run_sfs(consumer, Stdin::Bytes(input), scratch);
+    let o = run_consumer(consumer, input, scratch);
     match judge_rejected(&o) {
         Ok(()) => None,
         Err(e) => {
@@ -227,7 +244,7 @@ fn eval_cli(input: &[u8], consumer: &[&str], what: &str, class: &str, scratch: &
                 "damaged-undiagnosed".to_string()
             };
             Some((
-                format!("C16|cli|{kind}|{}|{class}", consumer[0]),
+                format!("C16|cli|{kind}|{}{}|{class}", consumer[0], if consumer.contains(&"{PATH}") { ",by-path" } else { "" }),
                 format!("sfs {} on {what}: {e}", consumer.join(" ")),
                 J::obj([
                     ("kind", J::s("c16-cli")),
@@ -479,13 +496,13 @@ pub fn run(tier: Tier) -> i32 {
     let mut cli_cases: Vec<(usize, Damage, usize)> = Vec::new();
     for &bi in &pick {
         for at in 0..bases[bi].bytes.len() {
-            for c in 0..3 {
+            for c in 0..ALL_CONSUMERS.len() {
                 cli_cases.push((bi, Damage::Truncate(at), c));
             }
         }
         for n in EXT_LENGTHS {
             for f in 0..FILLERS.len() {
-                for c in 0..3 {
+                for c in 0..ALL_CONSUMERS.len() {
                     if tier.thorough() || n <= 16 || f == 0 || (n + f + c) % 3 == 0 {
                         cli_cases.push((bi, Damage::Extend(n, f), c));
                     }
@@ -496,7 +513,7 @@ pub fn run(tier: Tier) -> i32 {
     let res = par_map(cli_cases.len(), |i| {
         let (bi, d, c) = cli_cases[i];
         let bytes = damaged(&bases[bi].bytes, d);
-        eval_cli(&bytes, CONSUMERS[c], &format!("{} with {d:?}", bases[bi].name), &damage_class(&bases[bi], d), &scratch)
+        eval_cli(&bytes, ALL_CONSUMERS[c], &format!("{} with {d:?}", bases[bi].name), &damage_class(&bases[bi], d), &scratch)
     });
     let mut nt = 0;
     for ((bi, d, _), v) in cli_cases.iter().zip(res) {
@@ -915,7 +932,7 @@ pub fn replay(case: &J) -> Option<Vec<String>> {
             let stdin = crate::json::j_bytes(case.get("stdin")?).or_else(|| case.get("stdin")?.as_str().map(|s| s.as_bytes().to_vec()))?;
             let scratch = Scratch::new("c16r");
             let consistent = case.get("class").and_then(|c| c.as_str()) == Some("consistent");
-            let o = run_sfs(&a, Stdin::Bytes(&stdin), &scratch);
+            let o = run_consumer(&a, &stdin, &scratch);
             if consistent {
                 return Some(if o.panicked() { vec![format!("panicked: {}", o.panic_site())] } else { vec![] });
             }
